@@ -32,7 +32,9 @@ class Env:
     """Per-run environment: scratch directory, peer, opened streams."""
     def __init__(self, scratch):
         self.scratch = scratch
-        self.peer = SimPeer()
+        from pool import pool as _pool
+        base = _pool.POOL_PEER       # pages behind the pool's remote location hints stay reachable
+        self.peer = SimPeer(pages=dict(base.pages) if base is not None else None)
         self.peer.install()
         self.n = 0
         self.streams = []
